@@ -383,6 +383,7 @@ def build_enforcer(cfg, fail_after=None):
             return {"pol": pol, "store": {k: [list(r) for r in ad.store.get(k, [])] for k in ("p", "g", "g2")} if ad else None}
 
         w.log.observe = observe
+    e._verif_text = cfg.text
     events = []
     if ad is not None:
         ad.log.events = events
@@ -439,6 +440,8 @@ def lean_lines(op):
         return ["op\tupdateread\t" + op[1]]
     if n == "clear":
         return ["op\tclear"]
+    if n == "loadmodel":
+        return ["op\tclear"]  # load_model invalidates the policy (and nothing else: flags, adapter and watcher stay)
     if n in ("build", "setrm"):
         return ["op\tbuild"]  # a swapped-in empty role manager followed by build_role_links = a rebuild
     if n == "save":
@@ -543,6 +546,24 @@ def impl_call(e, op, is_async):
         return call("clear_policy")
     if n == "build":
         return call("build_role_links")
+    if n == "loadmodel":
+        # reload the model from its CONF file: the policy is invalidated; everything else about the enforcer stays
+        import os
+        import tempfile
+
+        fd, path = tempfile.mkstemp(prefix="enf_model_", suffix=".conf")
+        with os.fdopen(fd, "w") as f:
+            f.write(TEXT[getattr(e, "_verif_text", None) or "rbac"])
+        try:
+            e.model_path = path
+            e.load_model()
+            for pt, rm in list(e.rm_map.items()):
+                rm.clear()
+                if pt in e.model.model.get("g", {}):
+                    e.model.model["g"][pt].rm = rm
+        finally:
+            os.unlink(path)
+        return None
     if n == "setrm":
         # replace the role manager of every role definition by a new, empty one of the same class, then rebuild
         for pt, rm in list(e.rm_map.items()):
